@@ -14,8 +14,11 @@ LEVEL_TEXT = ("TLC explores OptParse.tla - the ideal reading of a command line a
               "behaviour TLC generates (expected targets, argv, bad count, flags per pass) is then executed on spifopt_parse in an "
               "ASan build of the current tree (fresh exact-size heap argv, guarded targets, CPU watchdog) and compared.")
 LEVEL_NOTE = ("Bounded scope: all argv of <= 3 words over 15 tokens and <= 2 words over the full 35-token alphabet (quick); <= 4 words "
-              "over 12 tokens, <= 3 words over 28 and <= 2 over all 35 (thorough); two family scopes (all boolean words x {=WORD, next "
-              "word}; long names that are prefixes of each other / of the typed name); 2 option tables x 4 settings; beyond the bound "
+              "over 11 tokens, <= 3 words over 28 and <= 2 over all 35 (thorough); two family scopes (all boolean words x {=WORD, next "
+              "word}; long names that are prefixes of each other / of the typed name; a third table with every subset of the modifier "
+              "bits PREPARSE/DEPRECATED/ARRAY per kind; ALL histories of 3 (thorough also 4) spifopt_parse calls over the same "
+              "argv/argc with every settings combination per call, <= 3 words over 4 tokens); 2 option tables x the 4 usual "
+              "histories elsewhere; beyond the bound "
               "seeded samples of 4-8 words and a size sweep (n-1, n, n+1 around powers of two for words in a list, letters in a "
               "bundle, words on the line, characters in a value) - TLC computes the expectation of those too. Every behaviour is "
               "run fresh and after 4 adversarial preludes (stale errno, an earlier refused parse); results must be identical. "
